@@ -60,7 +60,13 @@ def unit_stft(prop, which):
     return unit
 
 
+def _scales(prop):
+    from contracts import scales
+    return scales.unit_scales(prop)
+
+
 UNITS = {
+    "C19": [_scales("C19")],
     "C02": [unit_stft_frame("C02"), unit_stft("C02", "full")],
     "C01": [unit_stft("C01", "finalize"), unit_stft("C01", "chunk")],
 }
